@@ -130,7 +130,7 @@ def replay_pm(ctx, failure, monitors):
     import harness.pm_monitors  # noqa
     prog, sched = pm.fix_case(failure['case'])
     plan = {(a, b): c for a, b, c in failure['case'].get('listener_plan', [])} or None
-    r = pm.run_schedule(prog, sched, status0=pm.status0_for(sched), plan=plan, loop_mode=pm.loop_mode_for(sched))
+    r = pm.run_schedule(prog, sched, status0=pm.status0_for(sched), plan=plan, loop_mode=pm.loop_mode_for(sched), driver=pm.driver_for(sched))
     fails = []
     for m in monitors:
         fails.extend(pm.MONITORS[m](r))
